@@ -63,9 +63,14 @@ func valueOf(name string, ver uint32) []byte { return []byte(fmt.Sprintf("%s#%d"
 // histValue gives the bytes of (name, version) in store histories. Versions v and v+3 of a secret
 // have IDENTICAL bytes (an operator re-puts an old value later): freshness is a matter of version
 // numbers, not of bytes.
+// Version 3 (and so 6, 9, ...) of every secret is the EMPTY byte string, which the service
+// accepts and serves like any other value.
 func histValue(name string, ver uint32) []byte {
 	if ver >= 4 {
-		return []byte(fmt.Sprintf("%s#%d", name, (ver-1)%3+1))
+		ver = (ver-1)%3 + 1
+	}
+	if ver == 3 {
+		return []byte{}
 	}
 	return []byte(fmt.Sprintf("%s#%d", name, ver))
 }
@@ -306,9 +311,8 @@ func (r *storeRun) run() *h.Violation {
 			m := r.model[o.Name]
 			m.handle = true
 			m.last = r.clock.Unix() // NewUpdater reads the value once
-			if r.handles[o.Name] == nil {
-				r.handles[o.Name] = r.st.Secret(o.Name)
-			}
+			// no separate handle is taken: the watcher alone must keep the secret alive
+			r.info.Class("watcher-without-a-handle")
 			if r.cache.NumWrites() > w0 {
 				// the lookup's flush happens before the updater's first read
 				save := m.last
